@@ -223,6 +223,16 @@ def gen_Y(rng):
     return "Y %s %s" % (rng.choice("YZ"), " ".join(toks))
 
 
+def gen_B(rng):
+    """a Go func(a, b *Node, s string) called with two nodes of a Y graph (often the same one) and a primitive"""
+    toks = gen_Y(rng).split()
+    ns = [i for i, t in enumerate(toks[2:]) if t.startswith("n:")]
+    ra = rng.choice(ns)
+    rb = ra if rng.random() < 0.4 else rng.choice(ns)
+    sarg = rng.choice(["i%d" % rng.randint(-999, 999), "i0", "t", "F", "u", "n"])
+    return "B %s %d %d %s %s" % (toks[1], ra, rb, sarg, " ".join(toks[2:]))
+
+
 def gen_I(rng):
     """plain objectGoSlice: []interface{} by value / *[]interface{}; backing array with stale items in the spare capacity"""
     byptr = rng.random() < 0.65
@@ -347,6 +357,16 @@ def gen_A(rng):
         else:
             args.append(rng.choice(["t", "F", "u", "n", "fn", "fp", "fm", "fz"]))
     return "A %d %s | %s" % (1 if variadic else 0, ",".join(kinds), " ".join(args))
+
+
+D_SRCS = ["arr", "arrHole", "arrEmpty", "arr2", "arrIter", "arrIterGone", "set", "setEmpty", "map", "u8", "i16", "dv", "ab", "alike",
+          "alikeHole", "fn", "plain", "gen", "iterObj", "proxyArr"]
+D_DSTS = ["sl", "st", "by", "a2", "a3", "ms", "mi"]
+
+
+def gen_dispatch():
+    """typed export dispatch: every catalogued source class x every destination class (exhaustive)"""
+    return ["D %s %s" % (s, d) for s in D_SRCS for d in D_DSTS] + ["DS %s %s" % (s, d) for s in D_SRCS for d in D_DSTS]
 
 
 def gen_gateways():
@@ -683,7 +703,7 @@ def main(ctx):
     ok, errs = ctx.lake_build(["model_c13"])
     # the axiom audit (and leanchecker) only read the built .olean files: run them while the streams run
     def audit_job():
-        ctx.audit("GojaModel.C13.Props", expect_min=53)
+        ctx.audit("GojaModel.C13.Props", expect_min=59)
         if not quick:
             ctx.leanchecker("GojaModel.C13.Props")
     f_audit = bg.submit(audit_job)
@@ -733,7 +753,9 @@ def main(ctx):
     Ig = [l for l in corpus if l.startswith("I ")] + [gen_I(rng) for _ in range(800 if quick else 30000)]
     Ag = [l for l in corpus if l.startswith("A ")] + [gen_A(rng) for _ in range(600 if quick else 30000)]
     Y = [l for l in corpus if l.startswith("Y ")] + [gen_Y(rng) for _ in range(1500 if quick else 60000)]
-    both = W + NF + Sx + X + V + Mm + CJ + Ig + Ag + Y
+    Dd = gen_dispatch()
+    Bg = [l for l in corpus if l.startswith("B ")] + [gen_B(rng) for _ in range(400 if quick else 15000)]
+    both = W + NF + Sx + X + V + Mm + CJ + Ig + Ag + Y + Dd + Bg
     K = [l for l in corpus if l.startswith("K ")] + [gen_K(rng) for _ in range(400 if quick else 15000)]
     f_k = bg.submit(run_sharded, ctx, h, K, 3)
 
@@ -765,7 +787,7 @@ def main(ctx):
     hres = f_h.result()
     ctx.log("correspondence streams done")
     ctx.count(len(both))
-    groups = {"W": [], "N": [], "F": [], "G": [], "S": [], "X": [], "V": [], "M": [], "C": [], "J": [], "I": [], "A": [], "Y": []}
+    groups = {"W": [], "N": [], "F": [], "G": [], "S": [], "X": [], "V": [], "M": [], "C": [], "J": [], "I": [], "A": [], "Y": [], "D": [], "B": []}
     for i, l in enumerate(both):
         groups[l[0]].append(i)
     opmix, lens = {}, {}
@@ -785,12 +807,26 @@ def main(ctx):
         if sig not in found:
             found[sig] = (summary, replay)
 
-    for gname in ("M", "C", "J", "I", "A"):
+    for i in groups["D"]:
+        ctx.nontriv(both[i])
+        r = hres[i]
+        if r.startswith("INCONCLUSIVE"): continue
+        if both[i].startswith("DS "):
+            # the property: the same object through the same destination type is ONE Go value
+            if r == "split" or r.startswith("PANIC"):
+                f2 = both[i].split()
+                sig = "set-exportToMap-not-cached" if (r == "split" and f2[1].startswith("set") and f2[2] in ("ms", "mi")) else "typed-export-identity:%s:%s" % (f2[1], f2[2])
+                report(sig, "one ExportTo of [x, x] (x = %s) into a slice of %s: %s" % (f2[1], f2[2], r), {"kind": "input", "lines": [both[i]], "expected": ["shared"], "observed": [r]})
+        elif r.startswith("PANIC") or (mres[i] is not None and r != mres[i]):
+            f2 = both[i].split()
+            report("typed-export-dispatch:%s:%s" % (f2[1], f2[2]), "ExportTo of %s into %s: implementation %s, documented %s" % (f2[1], f2[2], r, mres[i]),
+                   {"kind": "input", "lines": [both[i]], "expected": [mres[i]], "observed": [r]})
+    for gname in ("M", "C", "J", "I", "A", "B"):
         for i in groups[gname]:
             ctx.nontriv(both[i])
             if hres[i].startswith("INCONCLUSIVE"): continue
             if "PANIC" in hres[i] or (mres[i] is not None and hres[i] != mres[i]):
-                what = {"M": "map-wrapper", "C": "gofunc-gateway", "J": "jsfunc-gateway", "I": "goslice-live-view", "A": "gofunc-arg-conversion"}[gname]
+                what = {"M": "map-wrapper", "C": "gofunc-gateway", "J": "jsfunc-gateway", "I": "goslice-live-view", "A": "gofunc-arg-conversion", "B": "gofunc-composite-arg"}[gname]
                 if gname == "I":
                     ishrunk = ctx.stats.get("I_shrunk", 0)
                     if ishrunk >= 3:
@@ -1117,7 +1153,7 @@ def replay(ctx, path):
             print("target        : *%sNode (struct{Any interface{}; Next *T; M map; L []*T; Any2 interface{}; ...}); script graph nodes n0.. as listed" % l.split()[1])
         print("input         :", l)
         print("implementation:", x)
-        if l[0] in "WNFGSXVMCJIAY" and os.path.exists(ctx.model_exe()):
+        if l[0] in "WNFGSXVMCJIAYDB" and os.path.exists(ctx.model_exe()):
             rc2, m, _ = ctx.run_lines([ctx.model_exe()], model_lines([l]), timeout=300)
             print("mechanism model:", m[0] if m else "?")
         if l[0] == "K":
